@@ -98,6 +98,12 @@ func (g *Generator) makeNullableSchema(schemaProxy *base.SchemaProxy) *base.Sche
 		builtSchema.Type = append(builtSchema.Type, "null")
 	}
 
+	// An enum keyword restricts the instance to the listed values whatever the type
+	// says, so null has to be listed as well.
+	if len(builtSchema.Enum) > 0 {
+		builtSchema.Enum = append(builtSchema.Enum, &yaml.Node{Kind: yaml.ScalarNode, Tag: "!!null", Value: "null"})
+	}
+
 	return base.CreateSchemaProxy(builtSchema)
 }
 
